@@ -673,7 +673,7 @@ def pAtom : Nat → List (Tok κ α) → Option (TExpr κ α × List (Tok κ α)
 end
 
 def parse (ts : List (Tok κ α)) : Option (TExpr κ α) :=
-  match pExpr (6 * ts.length + 10) ts with
+  match pExpr (12 * ts.length + 12) ts with
   | some (e, []) => some e
   | _ => none
 
